@@ -1,7 +1,113 @@
-//! op "lex" (stub: answers bad-op until the engine is built)
+//! op "lex": the compiler's lexical handlers and the determinism of compilation.
+//!  f = "intern":   {"names":[[cp..],..]}      -> kinds/texts from one fresh interner (hook wrapper)
+//!  f = "escapes" / "brace": {"s":[cp..]}      -> apply_escapes / apply_brace_escape
+//!  f = "compile":  {"src": text}              -> outcome of feed_file (+ touches of the recording doubles)
+//!  f = "determinism": {"src": text, "before": [texts], "get": [names]}
+//!        compile+run the text twice in a row, then after compiling the unrelated `before` texts, then under
+//!        other limits; reports the three outcomes (acceptance, error text, values of the bindings)
 
+use crate::doubles::{reset_touches, touches, RecClock, RecWriter};
+use crate::run::{compile, limits_from, R, T, W};
 use serde_json::{json, Value};
+use xray::builtin::verif_hooks as hooks;
+use xray::builtin::verif_hooks::lex as hl;
+use xray::builtin::verif_hooks::strs as hs;
+use xray::root_runtime_scope::RootEvaluationScope;
+use xray::runtime::RTCell;
 
-pub fn op(_req: &Value) -> Value {
-    json!({"bad-op": true})
+fn text(v: &Value) -> String {
+    v.as_array()
+        .map(|a| {
+            a.iter()
+                .map(|c| char::from_u32(c.as_u64().unwrap_or(0) as u32).unwrap_or('?'))
+                .collect()
+        })
+        .unwrap_or_default()
+}
+
+fn cps(s: &str) -> String {
+    if s.is_empty() {
+        "_".to_string()
+    } else {
+        s.chars()
+            .map(|c| (c as u32).to_string())
+            .collect::<Vec<_>>()
+            .join(",")
+    }
+}
+
+/// acceptance / error text / values of the requested bindings under the given limits
+fn outcome(src: &str, get: &[String], limits: &Value) -> Value {
+    let comp = match compile(src) {
+        Ok(c) => c,
+        Err(e) => return json!({ "compile": e }),
+    };
+    let limits = limits_from(limits);
+    let rt: RTCell<W, R, T> = limits.to_runtime(RecWriter::default(), RecClock { now: 1_000_000.0 });
+    let eval = RootEvaluationScope::from_compilation_scope(&comp, rt.clone());
+    match &eval {
+        Err(e) => json!({"compile": "ok", "inst": format!("{e:?}")}),
+        Ok(eval) => {
+            let vals: Vec<String> = get
+                .iter()
+                .map(|n| match eval.get_value(n) {
+                    Ok(v) => hooks::dump_value(v),
+                    Err(_) => "!unavailable".to_string(),
+                })
+                .collect();
+            json!({"compile": "ok", "inst": "ok", "vals": vals})
+        }
+    }
+}
+
+pub fn op(req: &Value) -> Value {
+    let f = req["f"].as_str().unwrap_or("");
+    match f {
+        "intern" => {
+            let names: Vec<String> = req["names"]
+                .as_array()
+                .map(|a| a.iter().map(text).collect())
+                .unwrap_or_default();
+            let r = hl::intern_all(&names);
+            json!({"r": r.iter().map(|(k, t)| format!("{k} {}", cps(t))).collect::<Vec<_>>()})
+        }
+        "escapes" => match hs::apply_escapes(&text(&req["s"])) {
+            Ok(r) => json!({ "r": cps(&r) }),
+            Err(_) => json!({"r": "error BadEscapeSequence"}),
+        },
+        "brace" => json!({"r": cps(&hs::apply_brace_escape(&text(&req["s"])))}),
+        "compile" => {
+            reset_touches();
+            let src = req["src"].as_str().unwrap_or("");
+            let r = match compile(src) {
+                Ok(_) => json!("ok"),
+                Err(e) => e,
+            };
+            let (w, c, r2) = touches();
+            json!({"compile": r, "touches": [w, c, r2]})
+        }
+        "determinism" => {
+            let src = req["src"].as_str().unwrap_or("");
+            let get: Vec<String> = req["get"]
+                .as_array()
+                .map(|a| a.iter().filter_map(|x| x.as_str().map(String::from)).collect())
+                .unwrap_or_default();
+            reset_touches();
+            let first = outcome(src, &get, &Value::Null);
+            let again = outcome(src, &get, &Value::Null);
+            if let Some(b) = req["before"].as_array() {
+                for t in b {
+                    let _ = compile(t.as_str().unwrap_or(""));
+                }
+            }
+            let after = outcome(src, &get, &Value::Null);
+            let limited = outcome(
+                src,
+                &get,
+                &json!({"size": 100000000u64, "depth": 500, "recursion": 400, "ud_calls": 1000000, "search": 1000000}),
+            );
+            json!({"first": first, "again": again, "after": after, "limited": limited})
+        }
+        _ => json!({"bad-op": true}),
+    }
 }
